@@ -11,7 +11,7 @@ import (
 func init() {
 	register(&propInfo{
 		ID:          "C05",
-		Explanation: "Path and origin analysis of the reconnect machinery: (R05.1) the redial function declines (returns false) exactly when no dial factory is configured, and the no-reconnect option is what makes the factory nil before the connection object is built; (R05.2) inside the redial loop every path from the loop head to a dial passes a sleep on the configured back-off with an attempt counter that grows on every iteration; the method-level retry sleeps before each re-send; (R05.3) after a successful dial the new socket is installed and, on every path to the end of the goroutine, the connection-unusable flag is cleared, keepalive is re-armed on the new socket and the socket reader is restarted; (R05.4) the temporary-connection code is one constant everywhere: seeded for the typed connection error, carried by every locally synthesised failure reply, compared by the retry gate; loss signals always mark the connection unusable (so loss leads to reconnect, not to a silent exit); (R05.5) every configuration field written by an option is read again on the construction path; (R05.6) the back-off delay is clamped before it is converted to an integer duration. (R05.8) the accept arm answers every request accepted during an outage, for both id polarities. (R05.9) the code-to-type direction of an error table is written only by the registry's constructor and Register or copied from another such map. (R05.10) the WebSocket transport function fails a call by itself only behind the hand-over to the connection loop; (R05.11) the code-to-type lookup is skipped only when the table pointer is nil. (R05.12) a reported connection error of whatever kind leads to the redial function; (R05.13) a deadline on the dial is created per dial.",
+		Explanation: "Path and origin analysis of the reconnect machinery: (R05.1) the redial function declines (returns false) exactly when no dial factory is configured, and the no-reconnect option is what makes the factory nil before the connection object is built; (R05.2) inside the redial loop every path from the loop head to a dial passes a sleep on the configured back-off with an attempt counter that grows on every iteration; the method-level retry sleeps before each re-send; (R05.3) after a successful dial the new socket is installed and, on every path to the end of the goroutine, the connection-unusable flag is cleared, keepalive is re-armed on the new socket and the socket reader is restarted; (R05.4) the temporary-connection code is one constant everywhere: seeded for the typed connection error, carried by every locally synthesised failure reply, compared by the retry gate; loss signals always mark the connection unusable (so loss leads to reconnect, not to a silent exit); (R05.5) every configuration field written by an option is read again on the construction path; (R05.6) the back-off delay is clamped before it is converted to an integer duration. (R05.8) the accept arm answers every request accepted during an outage, for both id polarities. (R05.9) the code-to-type direction of an error table is written only by the registry's constructor and Register or copied from another such map. (R05.10) the WebSocket transport function fails a call by itself only behind the hand-over to the connection loop; (R05.11) the code-to-type lookup is skipped only when the table pointer is nil. (R05.12) a reported connection error of whatever kind leads to the redial function; (R05.13) a deadline on the dial is created per dial. (R05.14) a possibly nil call context (client functions without a context parameter) is never dereferenced without a test for nil.",
 		NotDecided:  "That the link actually heals, back-off durations themselves, real outage shapes.",
 		Assumptions: []string{"NewErrors and RPCConnectionError are resolved by exported name", "a float that is not bounded by a dominating comparison may exceed the int64 range"},
 		Run:         runC05,
@@ -132,6 +132,8 @@ func (c *Ctx) startsPinger(fn *ssa.Function, seen map[*ssa.Function]bool) bool {
 }
 
 func runC05(c *Ctx) {
+	c.rule("R05.14", "retry-tagged methods without a context parameter ride out outages too: the possibly nil context is never dereferenced without a test for nil")
+	c.nilContextRule("R05.14")
 	p, r := c.P, c.R
 	w := c.ws()
 	c.rule("R05.1", "the redial function declines exactly when no dial factory is configured; the no-reconnect option nils the factory before the connection is built")
